@@ -73,6 +73,12 @@ def make_worker(tier):
                     t2 = base[0].replace("\n", rep)
                     tree, err = parse(t2)
                     results[lt] = (t2, tree if err is None else err, err)
+                    # and the commented text: a line comment has to end where the line ends
+                    if "commented" in results and results["commented"][1] is not None:
+                        S.count("executions")
+                        t3 = results["commented"][0].replace("\n", rep)
+                        tree, err = parse(t3)
+                        results["commented+" + lt] = (t3, tree if err is None else err, err)
             if base and base[1] is not None:
                 for variant, (text, tree, err) in results.items():
                     if tree is not None and tree != base[1]:
